@@ -4049,7 +4049,7 @@ class Frame(ContainerOperand):
     def items(self) -> tp.Iterator[tp.Tuple[tp.Hashable, Series]]:
         '''Iterator of pairs of column label and corresponding column :obj:`Series`.
         '''
-        for label, array in zip(self._columns.values, self._blocks.axis_values(0)):
+        for label, array in zip(self._columns, self._blocks.axis_values(0)):
             # array is assumed to be immutable
             yield label, Series(array, index=self._index, name=label)
 
